@@ -26,7 +26,7 @@ D = '0123456789'
 
 def configs(tier):
     quick = tier != 'thorough'
-    out = [('verhoeff', {}), ('damm', {}), ('mod_11_2', {}), ('mod_11_10', {}), ('mod_97_10', {'alphabet': D}),
+    out = [('verhoeff', {}), ('damm', {}), ('damm', {'table': 'docstring'}), ('mod_11_2', {}), ('mod_11_10', {}), ('mod_97_10', {'alphabet': D}),
            ('mod_97_10', {'alphabet': A36}), ('mod_37_2', {'alphabet': A36 + '*'}), ('mod_37_2', {'alphabet': D + 'X'}),
            ('mod_37_36', {'alphabet': A36}), ('mod_37_36', {'alphabet': D})]
     ns = (2, 10, 16, 36, 40) if quick else range(2, 41, 2)
@@ -51,6 +51,12 @@ def _setup(name, cfg):
         return dict(alphabet=D, obs=lambda w: (verhoeff.checksum(w), len(w) % 8), step=rl, accept=lambda s: s != 'INIT' and s[0] == 0,
                     is_valid=verhoeff.is_valid, calc=verhoeff.calc_check_digit, rtl=True, same_kind=anyk, transp='all', unique=True)
     if name == 'damm':
+        if cfg.get('table'):
+            from ..tables.options import DOMAINS
+            tb = DOMAINS[('stdnum.damm', 'table')][1]      # the alternative quasigroup printed in the damm docstring
+            return dict(alphabet=D, obs=lambda w: damm.checksum(w, table=tb), step=lr, accept=lambda s: s != 'INIT' and s == 0,
+                        is_valid=lambda w: damm.is_valid(w, table=tb), calc=lambda w: damm.calc_check_digit(w, table=tb),
+                        rtl=False, same_kind=anyk, transp='all', unique=True)
         return dict(alphabet=D, obs=lambda w: damm.checksum(w), step=lr, accept=lambda s: s != 'INIT' and s == 0,
                     is_valid=damm.is_valid, calc=damm.calc_check_digit, rtl=False, same_kind=anyk, transp='all', unique=True)
     if name == 'luhn':
@@ -95,7 +101,7 @@ def work(item):
     res = Result()
     S = _setup(name, cfg)
     A = S['alphabet']
-    label = name + (':%d' % len(A) if name in ('luhn', 'mod_37_2', 'mod_37_36', 'mod_97_10') else '')
+    label = name + (':%d' % len(A) if name in ('luhn', 'mod_37_2', 'mod_37_36', 'mod_97_10') else '') + (':table' if cfg.get('table') else '')
     quick = tier != 'thorough'
 
     def viol(clause, w1, w2, what, extra=''):
@@ -158,6 +164,25 @@ def work(item):
                     break
             if bad:
                 break
+    # ---- conformance (d): very long strings at sparse checkpoints (block-wise implementations, caches with a period)
+    limit = 2100 if name != 'mod_97_10' else (2100 if all(c in D for c in A) else 1050)   # int() string limit: 4300 digits
+    checkpoints = set(range(1, 130)) | {k + d for k in (256, 500, 512, 999, 1000, 1024, 1500, 2000, 2048) for d in (-2, -1, 0, 1, 2)}
+    for pat in ((A[1 % len(A)],), (A[-1], A[0]), (A[len(A) // 2], A[1 % len(A)], A[-1])):
+        w = ''
+        st = model.init
+        for i in range(limit):
+            ch = pat[i % len(pat)]
+            w = S['step'](w, ch)
+            st = model.delta[st, ch]
+            if (i + 1) in checkpoints:
+                conf += 1
+                try:
+                    o = S['obs'](w)
+                except Exception as e:  # noqa: B902
+                    o = ('EXC', type(e).__name__)
+                if o != st:
+                    viol('conformance', w[:40] + '...(%d)' % len(w), '', 'observation of a length-%d periodic string differs from the model' % len(w), 'very-long')
+                    break
     states = nstates
     transitions = len(model.delta)
     replayed = 0
